@@ -888,7 +888,6 @@ func family01(ctx string, b, u int) string {
 	return s.String()
 }
 
-
 // ------------------------------------------------------------------------------------------------ wide programs
 
 // widePrograms: functions with more than 255 locals / constants / call sites / upvalues / instance variables /
